@@ -24,7 +24,7 @@ META = {
         "R02.5": "who may write PushState: inputs and step limit only the builder, stacks only via HasStack::stack_mut, output only via HasStdout::stdout",
     },
     "trusted_base": ["std Result/Option combinators", "Box::new / deref", "uecfacts driver + uecheck rule engine (pushfx)"],
-    "assumptions": ["S1: every stack holds at most max_stack_size elements at instruction entry (C04 R04.1, C19 typestate); under S1 a push that follows a pop on the same stack cannot overflow"],
+    "assumptions": ["S1: every stack holds at most max_stack_size elements at instruction entry (C04 R04.1, C19 typestate); under S1 a push that follows a pop on the same stack cannot overflow", "S2: HasStack::stack::<T>() and stack_mut::<T>() name the same stack (decided for the derived impls by C19's accessor clause; hand-written impls are the user's)"],
     "not_decided": ["Cursor<Vec<u8>> internals"],
 }
 
